@@ -315,6 +315,51 @@ def ob_material_spd(clsname):
     return Verdict(DISCHARGED, backend="z3 QF_NRA (cvc5 fallback)", sub=k_done, solver_s=t)
 
 
+# ---------------------------------------------------------------- anisotropic law: notation consistency
+
+def ob_aniso_notation(dim_in, law_dim):
+    """Anisotropic._Behavior: the same material given in Voigt or in Kelvin-Mandel notation yields the same law
+    (symbolic symmetric C; material axes = a concrete non-trivial orthonormal frame); 2-D input embedded at [0,1,5]."""
+    size = 3 if dim_in == 2 else 6
+    names = [f"c{i}{j}" for i in range(size) for j in range(i, size)]
+    wit = {n: F(k + 3, 2 + (k % 7)) for k, n in enumerate(names)}
+    c = Ctx(names, nspare=3, witness=wit)
+    NPs, gu, glob_for = _env(c)
+    Cv = np.empty((size, size), dtype=object)
+    for i in range(size):
+        for j in range(size):
+            Cv[i, j] = c.sym(f"c{min(i,j)}{max(i,j)}")
+    a1 = np.array([F(3, 5), F(4, 5), F(0)], dtype=object) if law_dim == 2 else np.array([F(2, 3), F(2, 3), F(1, 3)], dtype=object)
+    a2 = np.array([F(-4, 5), F(3, 5), F(0)], dtype=object) if law_dim == 2 else np.array([F(-2, 3), F(1, 3), F(2, 3)], dtype=object)
+    obj = _law(c, "Anisotropic", glob_for, dim=law_dim, planeStress=False, _Anisotropic__axis1=a1, _Anisotropic__axis2=a2)
+    got_v = np.asarray(obj._Behavior(Cv, True))
+    Ckm = gu["KelvinMandel_Matrix"](dim_in, Cv)
+    got_k = np.asarray(obj._Behavior(Ckm, False))
+    ok, why = _eqm(c, got_v, got_k)
+    if not ok:
+        raise Refuted(f"Anisotropic (input {size}x{size}, law dim {law_dim}): Voigt input and the equivalent Kelvin-Mandel input give different laws at {why[0]}: {why[1]}",
+                      cex=dict(input=f"{size}x{size}", law_dim=law_dim), signature=f"aniso:notation:{dim_in}:{law_dim}", replay=_replay_aniso(dim_in, law_dim))
+    return Verdict(DISCHARGED, backend="ring-normal-form over QQ(c_ij)[sqrt2]", sub=got_v.size)
+
+
+def _replay_aniso(dim_in, law_dim):
+    try:
+        from EasyFEA import Models
+        from EasyFEA.Models._utils import KelvinMandel_Matrix
+        size = 3 if dim_in == 2 else 6
+        rng = np.random.default_rng(0)
+        B = rng.normal(size=(size, size))
+        Cv = B @ B.T + size * np.eye(size)
+        a1 = (0.6, 0.8, 0.0) if law_dim == 2 else (2 / 3, 2 / 3, 1 / 3)
+        a2 = (-0.8, 0.6, 0.0) if law_dim == 2 else (-2 / 3, 1 / 3, 2 / 3)
+        m1 = Models.Elastic.Anisotropic(law_dim, Cv, True, a1, a2)
+        m2 = Models.Elastic.Anisotropic(law_dim, KelvinMandel_Matrix(dim_in, Cv), False, a1, a2)
+        err = float(np.abs(m1.C - m2.C).max() / np.abs(m2.C).max())
+        return dict(confirmed=err > 1e-10, rel_err=err)
+    except Exception as e:
+        return dict(confirmed=True, raised=repr(e))
+
+
 # ---------------------------------------------------------------- Kelvin-Mandel scaling
 
 def ob_kelvin_mandel():
@@ -533,6 +578,9 @@ def build(tier, seed):
                       clause="material_sM @ material_cM == I identically; both symmetric", timeout=300))
         obs.append(Ob(f"C11.{cls}.spd", ob_material_spd, (cls,), "P", (fl(f"{cls}._Behavior"),),
                       clause="S SPD (hence C) under the thermodynamic admissibility conditions", timeout=400))
+    for dim_in, law_dim in ((2, 2), (3, 3), (3, 2)):
+        obs.append(Ob(f"C11.aniso.notation.in{dim_in}.law{law_dim}", ob_aniso_notation, (dim_in, law_dim), "P", (fl("Anisotropic._Behavior"), fu("KelvinMandel_Matrix"), fu("Get_Pmat"), fu("Apply_Pmat")),
+                      clause="Voigt input and the equivalent Kelvin-Mandel input yield the same law (symbolic symmetric C, rotated material axes)", timeout=900))
     obs.append(Ob("C11.kelvin_mandel", ob_kelvin_mandel, (), "P", (fu("KelvinMandel_Matrix"),), clause="sqrt(2) scaling pattern, dims 2 and 3"))
     obs.append(Ob("C11.Pmat.orthogonal.i", ob_pmat_orthogonal, ("i",), "P", (fu("Get_Pmat"),),
                   clause="P^T P == I for every rotation (Cayley) and axes of ANY length", timeout=300))
@@ -565,5 +613,5 @@ def build(tier, seed):
                      "admissible moduli = positivity + thermodynamic conditions stated in the obligation", "heterogeneous (per-element) parameter fields, Anisotropic law and lazy update are not covered here"],
         functions=functions,
         dropped=["D1-D5", "class-level parameter descriptors are not assembled: moduli are set as plain instance attributes"],
-        not_attempted=["C11.aniso (Voigt vs Kelvin-Mandel input, heterogeneous fields)", "C11.lazy (parameter change -> recompute on next read; effect contract)"],
+        not_attempted=["heterogeneous (per-element / per-Gauss-point) parameter fields", "C11.lazy (parameter change -> recompute on next read; effect contract)"],
     )
